@@ -42,6 +42,16 @@ where
     }
   }
 
+  // see Subject::emitter
+  pub(crate) fn emitter(&self) -> ReplaySubject<'a, Item> {
+    ReplaySubject {
+      subject: Arc::new(self.subject.emitter()),
+      items: Arc::clone(&self.items),
+      was_error: Arc::clone(&self.was_error),
+      was_completed: Arc::clone(&self.was_completed),
+    }
+  }
+
   pub fn next(&self, item: Item) {
     let index = {
       let mut items = self.items.write().unwrap();
